@@ -89,6 +89,12 @@ def shard_run(arg):
             for entries in items:
                 perm = list(reversed(entries)) if len(entries) >= 2 else None
                 ok = check_case(mon, entries, perm, sh)
+                if ok and entries:
+                    # inserting an existing key again replaces the value (also with the empty string)
+                    for v in VALUES:
+                        s0, b0, n0, v0 = entries[0]
+                        if v != v0:
+                            ok = check_case(mon, entries + [(s0, b0, n0, v)], None, sh) and ok
                 sig = signature(entries)
                 if sig:
                     sh.nontrivial.add(sig)
